@@ -47,6 +47,13 @@ def run(ctx):
     g = ctx.model_check("pool/MCLegacyPool", "pool/MCLegacyPoolGap", tags=("GAP",), timeout=T, workers=4, name="MCLegacyPoolGap")
     wit = behaviours(g, "GAP")[:8]
     traces = []
+    # fixed step, independent of VERIF_SEED: the kept history of the open finding is replayed on the real pool
+    hp = os.path.join(os.path.dirname(os.path.dirname(os.path.abspath(__file__))), "spec", "pool", "findings", "C41-gap-after-reorg.behaviours.json")
+    if os.path.exists(hp):
+        ht = os.path.join(ctx.scratch, "history.ndjson")
+        s, _ = ctx.drive(drv, ["-mode", "witness", "-in", hp, "-trace", ht], name="c41-history", timeout=T, env={"VERIF_SEED": "1"})
+        pending(ctx, tally, s)
+        traces.append((ht, s["traces"]))
     if wit:
         wp, wt = os.path.join(ctx.scratch, "gap.json"), os.path.join(ctx.scratch, "gap.ndjson")
         write_json(wp, wit)
